@@ -76,13 +76,15 @@ FIXED_ROLE_FAM = {"A": "angle", "D": "dimensionless", "H": "dlany"}
 class QA:
     """Unit-carrying placeholder: physical values `base` (root units) in dimension `role`."""
 
-    def __init__(self, role, base, py=False, bare_ok=False, target=False, always_bare=False):
+    def __init__(self, role, base, py=False, bare_ok=False, target=False, always_bare=False,
+                 as_unit=False):
         self.role = role
         self.base = np.asarray(base, dtype=float)
         self.py = py and self.base.ndim == 0        # pass a Python float magnitude
         self.bare_ok = bare_ok                      # may also be passed as a bare number (D/H)
         self.target = target                        # explicit in-place target
         self.always_bare = always_bare              # dimensionless value always passed bare
+        self.as_unit = as_unit                      # passed as the Unit object itself (= 1 unit)
 
     def __repr__(self):
         return f"QA({self.role},{self.base.shape})"
@@ -119,7 +121,8 @@ class V:
     """One way of calling a function."""
 
     def __init__(self, build, res, ref=None, inv=None, homog=True, err=True, offset=True,
-                 assign=None, tol=1e-9, truth=False):
+                 assign=None, tol=1e-9, truth=False, meta=True):
+        self.meta = meta            # False: no re-expression relation (a Unit operand is not a value)
         self.truth = truth          # decides on "non-zero": frame dependent for offset units
         self.build, self.res, self.ref, self.inv = build, res, ref, inv
         self.homog, self.err, self.offset, self.assign, self.tol = homog, err, offset, assign, tol
@@ -659,8 +662,18 @@ def _close_build(with_atol, qatol):
     return b
 
 
+def _close_atol_build(g):
+    """rtol=0: closeness is decided by atol alone (differences 0.2*atol or 5*atol)"""
+    a = g.gen(g.shape())
+    d = g.n.choice([0.2e-3, -0.2e-3, 5e-3, -5e-3], size=a.shape)
+    at = QA("X", np.float64(1e-3))
+    at.nobare = True
+    return C(QA("X", a), QA("X", a + d), rtol=0.0, atol=at)
+
+
 for _n in ("isclose", "allclose"):
     add("func", _n, plain=V(_close_build(False, False), BARE, offset=False),
+        atol_rtol0=V(_close_atol_build, BARE, offset=False),
         atol_q=V(_close_build(True, True), BARE, offset=False),
         atol0=V(_close_build(True, False), BARE, offset=False))
 
@@ -1151,3 +1164,29 @@ TABLE[("ufunc", "maximum")].variants["out_q"] = _outq_variant(
                            QA("X", np.zeros((3,)), target=True)), KX)
 TABLE[("ufunc", "negative")].variants["out_q"] = _outq_variant(
     "negative", lambda g: C(QA("X", g.gen((3,))), QA("X", np.zeros((3,)), target=True)), KX)
+
+
+# --------------------------------------------------------------------------------------
+# 8. Unit objects as ufunc operands (pint/facets/numpy/unit.py): ndarray * Unit etc.
+#    The Unit operand stands for "1 unit": its physical value is the unit's factor.
+# --------------------------------------------------------------------------------------
+
+
+def _unit_variants(fname):
+    f = getattr(np, fname)
+    sign = 1 if fname == "multiply" else -1
+    kw = dict(meta=False, err=False, offset=False)
+    inv = lambda npmod, a, b: getattr(npmod, fname)(a, b)   # noqa: E731
+    return dict(
+        arr_unit=V(lambda g: C(g.gen(g.shape(1, 3)), QA("Y", 1.0, as_unit=True)), U({"Y": sign}),
+                   inv=inv, ref=f, **kw),
+        unit_arr=V(lambda g: C(QA("Y", 1.0, as_unit=True), g.gen(g.shape(1, 3))), KY,
+                   inv=inv, ref=f, **kw),
+        q_unit=V(lambda g: C(qx(g, lo=1), QA("Y", 1.0, as_unit=True)), U({"X": 1, "Y": sign}),
+                 inv=inv, ref=f, **kw),
+        unit_q=V(lambda g: C(QA("Y", 1.0, as_unit=True), qx(g, lo=1)), U({"Y": 1, "X": sign}),
+                 inv=inv, ref=f, **kw))
+
+
+for _n in ("multiply", "divide", "true_divide"):
+    add("unit", _n, **_unit_variants(_n))
